@@ -756,7 +756,8 @@ pub fn check_c13(ix: &Ix<'_>, v: &mut Vec<Violation>) {
             },
             Ev::PeerSend { conn: 0, pkt: Some(p), .. } => match p {
                 Pkt::PubAck(_) | Pkt::PubComp(_) | Pkt::SubAck(_) | Pkt::UnsubAck(_) => outstanding -= 1,
-                Pkt::PubRec(a) if a.code >= 0x80 => outstanding -= 1,
+                // (a refusing PUBREC is not the final acknowledgement in the sense of C05 / C13: the library keeps
+                // the exchange - and its slot - until the application releases the receipt and PUBCOMP arrives)
                 _ => {}
             },
             _ => {}
@@ -2149,8 +2150,8 @@ pub fn check_c17(ix: &Ix<'_>, v: &mut Vec<Violation>) {
                         if !ended {
                             viol(v, "C17", format!("C17/not-delivered/{role}"), format!("conn {conn}: PUBLISH (topic {:?}, alias {alias:?}) resolves to {topic:?} but no handler was invoked", p.topic), ix.last_seq);
                         } else if alias.is_some()
-                            && (matches!(stop, Some((_, _, StopClass::Protocol(m))) if m.contains("lias"))
-                                || ix.eps.iter().any(|e| e.conn == conn && e.seq > s.seq && matches!(&e.pkt, Pkt::Disconnect(d) if d.code == 0x94)))
+                            && (matches!(stop, Some((_, _, StopClass::Protocol(_))))
+                                || ix.eps.iter().any(|e| e.conn == conn && e.seq > s.seq && matches!(&e.pkt, Pkt::Disconnect(d) if d.code >= 0x80)))
                         {
                             // every publish before this one was valid and handled: nothing but this publish can
                             // have been taken for an alias violation
@@ -2158,7 +2159,7 @@ pub fn check_c17(ix: &Ix<'_>, v: &mut Vec<Violation>) {
                                 v,
                                 "C17",
                                 format!("C17/valid-alias-refused/{role}"),
-                                format!("conn {conn}: PUBLISH (topic {:?}, alias {alias:?}) resolves to {topic:?} by the bindings made on this connection, yet the connection was ended with a topic-alias error", p.topic),
+                                format!("conn {conn}: PUBLISH (topic {:?}, alias {alias:?}) resolves to {topic:?} by the bindings made on this connection, yet the connection was ended with a protocol error (nothing else in this scenario can be one)", p.topic),
                                 stop.map_or(ix.last_seq, |x| x.0),
                             );
                             return;
